@@ -124,16 +124,16 @@ def finalizeBox (b : BBox) : BBox :=
   if b1.max.z.feq F64.sentinelMax && b1.min.z.feq F64.sentinelMin
     then ⟨{ b1.min with z := F64.zero }, { b1.max with z := F64.zero }⟩ else b1
 
-/-- `ShapeWriter::finalize` -/
+/-- `ShapeWriter::finalize` (the header written is a copy of the state's header with the
+untouched sentinels replaced; the state's own header is left alone) -/
 def planFinalize (st : WState) : Plan :=
   if !st.dirty then { pre := st, ops := [], post := st } else
   let hdr := { st.header with bbox := finalizeBox st.header.bbox }
-  let pre := { st with header := hdr }
   let shxHdr := { hdr with fileLength := Const.headerSize / 2 + (st.recNum - 1) * 2 * 4 / 2 }
-  { pre := pre,
+  { pre := st,
     ops := [(.shp, .seekStart 0), (.shp, .write hdr.enc), (.shp, .seekEnd), (.shp, .flush)] ++
            (if st.hasShx then [(.shx, .seekStart 0), (.shx, .write shxHdr.enc), (.shx, .seekEnd), (.shx, .flush)] else []),
-    post := { pre with dirty := false } }
+    post := { st with dirty := false } }
 
 def plan (st : WState) : WCall → Except Err Plan
   | .writeShape s => planWriteShape st s
